@@ -9,6 +9,7 @@ import (
 	"os"
 	"path/filepath"
 	"regexp"
+	goruntime "runtime"
 	"runtime/debug"
 	"strings"
 	"syscall"
@@ -30,54 +31,20 @@ import (
 	"github.com/tetratelabs/wazero/api"
 )
 
-// RunInput is what the orchestrator hands to one simulation process.
-type RunInput struct {
-	Property string    `json:"property"`
-	Seed     uint64    `json:"seed"`
-	Scenario *Scenario `json:"scenario"`
-	Tape     []int     `json:"tape,omitempty"` // replay when non-nil
-	Replay   bool      `json:"replay,omitempty"`
-	JobDir   string    `json:"job_dir"` // scratch directory (cwd of the run)
-	Phase    int       `json:"phase,omitempty"`
-	KeepLog  bool      `json:"keep_log,omitempty"`
-	Out      string    `json:"out"`
-}
-
-// RunRecord is what one simulation process reports back.
-type RunRecord struct {
-	Property   string         `json:"property"`
-	Seed       uint64         `json:"seed"`
-	Phase      int            `json:"phase,omitempty"`
-	EndReason  string         `json:"end_reason"`
-	Hash       string         `json:"hash"`
-	Steps      int            `json:"steps"`
-	Events     int            `json:"events"`
-	SimNs      int64          `json:"sim_ns"`
-	Pairs      int            `json:"pairs"`
-	Anon       int            `json:"anon"`
-	Tape       []int          `json:"tape"`
-	Violations []Violation    `json:"violations"`
-	Probes     map[string]int `json:"probes"`
-	Faults     map[string]int `json:"faults"`
-	Parked     []string       `json:"parked_at_end,omitempty"`
-	Requests   int            `json:"requests"`
-	Summary    map[string]any `json:"summary,omitempty"`
-	Log        []*Event       `json:"log,omitempty"`
-	Panic      string         `json:"panic,omitempty"`
-}
-
 type e2e struct {
-	in    *RunInput
-	sc    *Scenario
-	k     *Kernel
-	net   *SimNet
-	rec   *RunRecord
-	ctl   []*ctlState
-	disk  int
+	in           *RunInput
+	sc           *Scenario
+	k            *Kernel
+	net          *SimNet
+	rec          *RunRecord
+	ctl          []*ctlState
+	disk         int
 	stopFiredAt  time.Duration
 	stopFired    bool
 	stopReturned bool
 	started      bool
+	idleTold     bool
+	tr           *tracker
 	jobPath      string
 	summary      map[string]any
 }
@@ -260,6 +227,7 @@ func (r *e2e) writeRecord() {
 	rec.Events = k.Events()
 	rec.SimNs = int64(k.Now())
 	rec.Pairs = k.Pairs()
+	rec.PairList = k.PairList()
 	rec.Anon = k.AnonCount()
 	rec.Tape = k.tape.Rec
 	rec.Violations = k.Violations
@@ -313,8 +281,19 @@ func (r *e2e) idle() bool {
 	if sec == 0 {
 		sec = 12
 	}
-	return r.k.IdleFor() >= time.Duration(sec)*time.Second && r.k.OnlyIdleParked()
+	if !r.k.OnlyIdleParked() {
+		return false
+	}
+	if r.k.IdleFor() >= hangBound {
+		return true // nothing but idle pollers for a very long time: whatever is still tracked is stuck
+	}
+	if r.tr != nil && len(r.tr.tracked) > 0 {
+		return false // seeds in flight (e.g. waiting on a slow origin)
+	}
+	return r.k.IdleFor() >= time.Duration(sec)*time.Second
 }
+
+const hangBound = 30 * time.Minute
 
 func (r *e2e) fire(c *ctlState) {
 	c.fired = true
@@ -391,6 +370,15 @@ func (r *e2e) hook() {
 			r.fire(c)
 		}
 	}
+	if !r.idleTold && !r.stopFired && r.idle() {
+		r.idleTold = true
+		k.Probe("reached-idle")
+		for _, o := range k.Oracles {
+			if io, ok := o.(IdleOracle); ok {
+				io.OnIdle(k)
+			}
+		}
+	}
 	if r.sc.StopAtIdle && !r.stopFired && r.idle() {
 		c := &ctlState{a: CtlAction{Name: "stop-at-idle", Kind: "stop"}}
 		r.ctl = append(r.ctl, c)
@@ -435,6 +423,7 @@ func RunE2E(t *testing.T, in *RunInput) {
 	}()
 	synctest.Test(t, func(t *testing.T) {
 		time.Sleep(123456789 * time.Nanosecond)
+		goruntime.SimBubbleGlobals(true)
 		var tape *Tape
 		if in.Replay {
 			tape = NewReplayTape(in.Tape)
